@@ -286,8 +286,14 @@ func handleUpload(ucfg *tconfig.Config, uploadBucket storage.BucketHandle) conte
 		if r.Method == "POST" {
 			ctx := r.Context()
 			var report telemetry.Report
-			if err := json.NewDecoder(r.Body).Decode(&report); err != nil {
+			dec := json.NewDecoder(r.Body)
+			if err := dec.Decode(&report); err != nil {
 				return content.Error(fmt.Errorf("invalid JSON payload: %v", err), http.StatusBadRequest)
+			}
+			// The body must be the report and nothing else. Reading on to the end
+			// of the body also applies the request size limit to what follows.
+			if _, err := dec.Token(); err != io.EOF {
+				return content.Error(fmt.Errorf("invalid JSON payload: unexpected data after the report"), http.StatusBadRequest)
 			}
 			if err := validate(&report, ucfg); err != nil {
 				return content.Error(fmt.Errorf("invalid report: %v", err), http.StatusBadRequest)
